@@ -765,6 +765,12 @@ def judge_c06_accessors(ctx, cfg, lits):
     # accessors
     lits2 = [s for s in lits if gen.is_utf8(s.encode('latin-1'))]
     outs = ctx.impl(cfg, ['na %s %s' % (L, hx(s.encode())) for s in lits2], name=IMPL)
+    if 'a' not in L and ctx.model_ok:
+        # the accessor MODEL (Model/Pointer.v, Proofs/NumberAcc.v: theorems C06_as_* / C06_is_*) against the crate, line for line
+        mouts = ctx.model(['na %s %s' % (L, hx(s.encode())) for s in lits2], 'sjdriver_numacc')
+        for s, a, m in zip(lits2, outs, mouts):
+            if a.split(' ')[0] in ('num', 'notnum') and a != m:
+                v.append({'what': 'number-accessors-differ-from-model', 'cfg': cfg, 'input': hx(s.encode()), 'expected': 'model: ' + m, 'actual': a, 'shrinkable': False})
     for s, a in zip(lits2, outs):
         plain, n = lit_value(s)
         if not plain:
